@@ -66,7 +66,7 @@ def blockWords (bs : Array UInt8) (off : Nat) : Array UInt32 :=
 def wordsBytes (st : Array UInt32) : Bytes :=
   st.toList.flatMap fun (w : UInt32) => [(w >>> 24).toUInt8, (w >>> 16).toUInt8, (w >>> 8).toUInt8, w.toUInt8]
 
-/-- padding for a message of `total` bytes whose last partial part is `tail` -/
+/-- `msg` followed by the SHA-256 padding for a message of `total` bytes in all -/
 def padded (msg : Array UInt8) (total : Nat) : Array UInt8 :=
   let m1 := msg.push 0x80
   let z := (64 - (m1.size + 8) % 64) % 64
